@@ -263,6 +263,21 @@ impl World {
             "DeclineInvoice" => NegativeApprover()
                 .handle_proposed_invoice(node, self.make_invoice(r["h"].as_str().unwrap(), r["a"].as_u64().unwrap()))
                 .map(|b| json!({"flag": if b { 1 } else { 0 }})),
+            // the receive path: the node signs an invoice of its own and remembers it as issued
+            "IssueInvoice" => {
+                let h = r["h"].as_str().unwrap();
+                let ts = self.fx.clock_now().as_secs() - 10;
+                let raw = InvoiceBuilder::new(Currency::Regtest)
+                    .description("issued".into())
+                    .payment_hash(Sha256Hash::hash(&preimage(h).0))
+                    .payment_secret(PaymentSecret([hash_byte(h); 32]))
+                    .duration_since_epoch(Duration::from_secs(ts))
+                    .min_final_cltv_expiry_delta(144)
+                    .amount_milli_satoshis(r["a"].as_u64().unwrap() * UNIT * 1000)
+                    .build_raw()
+                    .map_err(|_| Status::invalid_argument("harness: build_raw"))?;
+                node.sign_bolt11_invoice(raw).map(|_| json!({}))
+            }
             "AddKeysend" => {
                 let payee = PublicKey::from_slice(&peer_id()).unwrap();
                 PositiveApprover()
@@ -350,6 +365,7 @@ impl World {
     fn project(&self) -> Value {
         let now = self.fx.clock_now().as_secs();
         let mut inv = Map::new();
+        let mut iss = Map::new();
         let mut pay = Map::new();
         let mut extra = 0;
         let units = |sat: u64| -> i64 { if sat % UNIT == 0 { (sat / UNIT) as i64 } else { -2 } };
@@ -364,6 +380,7 @@ impl World {
                         "ks": format!("{}", p.payment_type) == "keysend",
                         "old": now.saturating_sub(p.duration_since_epoch.as_secs()) > 2 * 24 * 3600}),
                 });
+                iss.insert(h.clone(), issued_json(st.issued_invoices.get(&ph), now));
                 let zero: BTreeMap<String, i64> = self.cfg.chans.iter().map(|c| (c.clone(), 0)).collect();
                 pay.insert(h.clone(), match st.payments.get(&ph) {
                     None => json!({"has": false, "in": zero, "out": zero, "pre": false}),
@@ -383,12 +400,15 @@ impl World {
             }
             extra += st.invoices.keys().filter(|k| hash_name(&self.cfg, k).is_none()).count();
             extra += st.payments.keys().filter(|k| hash_name(&self.cfg, k).is_none()).count();
-            extra += st.issued_invoices.len();
+            extra += st.issued_invoices.keys().filter(|k| hash_name(&self.cfg, k).is_none()).count();
         }
         // what a restart would find: the preimages of the persisted node entry
         let mut ppre = Map::new();
+        let mut piss = Map::new();
         let nodes = self.fx.store.get_nodes().expect("get_nodes");
         for h in &self.cfg.hashes {
+            let e = nodes.iter().find_map(|(_, e)| e.state.issued_invoices.get(&payment_hash(h)));
+            piss.insert(h.clone(), issued_json(e, now));
             let known = nodes.iter().any(|(_, e)| e.state.payments.get(&payment_hash(h)).map(|p| p.preimage.is_some()).unwrap_or(false));
             ppre.insert(h.clone(), json!(known));
         }
@@ -400,7 +420,7 @@ impl World {
                 "nextH": self.content_json(es.next_holder_commit_info.as_ref().map(|x| &x.0), false),
                 "curC": self.content_json(es.current_counterparty_commit_info.as_ref(), true)}));
         }
-        let mut o = json!({"inv": inv, "pay": pay, "ppre": ppre, "ch": ch, "time": if now >= LATE_SECS { 1 } else { 0 }});
+        let mut o = json!({"inv": inv, "iss": iss, "piss": piss, "pay": pay, "ppre": ppre, "ch": ch, "time": if now >= LATE_SECS { 1 } else { 0 }});
         if extra > 0 {
             o["extra"] = json!(extra);
         }
@@ -450,6 +470,15 @@ impl World {
         }
         load_store(&self.fx.store.0, &s.store);
         self.fx.clock.set(s.now);
+    }
+}
+
+fn issued_json(p: Option<&lightning_signer::node::PaymentState>, now: u64) -> Value {
+    match p {
+        None => json!({"amt": 0, "old": false}),
+        Some(p) => json!({
+            "amt": if p.amount_msat % (UNIT * 1000) == 0 { (p.amount_msat / (UNIT * 1000)) as i64 } else { -2 },
+            "old": now.saturating_sub(p.duration_since_epoch.as_secs()) > 2 * 24 * 3600}),
     }
 }
 
